@@ -884,6 +884,15 @@ func (e *Env) evalCall(x *Call) *Val {
 		}
 		t := tr.resolveType(sl.V)
 		return mkVal(ifPart(arg(0), 1), "Int", t)
+	case "asValue":
+		// asValue(ifaceValue, "T"): the value held by an interface value whose dynamic type is the non-pointer type T
+		sl, ok := x.Args[1].(*StrLit)
+		if !ok {
+			evalFail("asValue wants a type literal")
+		}
+		t := tr.resolveType(sl.V)
+		s := u.sortOf(t)
+		return mkVal(u.unbox(ifPart(arg(0), 1), s), s, t)
 	case "ftag", "fbase", "eidx":
 		return mkVal("("+x.Fn+" "+arg(0).E()+")", "Int", types.Typ[types.UnsafePointer])
 	case "elemAddr":
